@@ -99,8 +99,11 @@ WeightExact(r, o) == o.divmm => FragmentWeight(r, o) % Hits(r) = 0    \* the den
 JoinStr(parts, d) == IF Len(parts) = 0 THEN ""
                      ELSE FoldLeft(LAMBDA acc, x : acc \o d \o x, parts[1], Tail(parts))
 IsAttr(tag) == tag \in {"chrom", "reference_name"}
+(* metaFromRead: BI and bi are aliases of each other (backwards / forwards compatibility of the cell index tag) *)
+AliasOf(tag) == IF tag = "BI" THEN "bi" ELSE IF tag = "bi" THEN "BI" ELSE tag
 FeatStr(r, tag, o) == IF IsAttr(tag) THEN r.contig
                       ELSE IF HasKey(r.nums, tag) THEN ToString(r.nums[tag])
+                      ELSE IF HasKey(r.nums, AliasOf(tag)) THEN ToString(r.nums[AliasOf(tag)])
                       ELSE IF HasKey(r.feats, tag) THEN JoinStr(r.feats[tag], o.delim)
                       ELSE "None"
 Parts(r, tag, o) == IF HasKey(r.feats, tag) THEN r.feats[tag] ELSE << FeatStr(r, tag, o) >>
@@ -162,21 +165,23 @@ BaseContribs(r, o) ==
                           ELSE << [key |-> << FeatStr(r, TagsOf(o)[k], o) >>, w |-> w] >>]
         IN FoldLeft(LAMBDA acc, q : acc \o q, <<>>, perTag)
 
+(* --bulk (export path only): the counts of all samples are summed into the single column "Bulkseq" *)
+ColumnOf(r, o) == IF o.bulk THEN "Bulkseq" ELSE r.sample
 (* all contributions of one read: sequence of [sample, key, w] *)
 Contribs(r, o) ==
     LET base == BaseContribs(r, o) IN
     IF o.contig # "" /\ r.contig # o.contig THEN <<>>
     ELSE IF o.bin > 0 THEN
         LET sfx == SetToSeq(BinSuffixes(r, o))
-        IN FoldLeft(LAMBDA acc, c : acc \o [k \in DOMAIN sfx |-> [sample |-> r.sample, key |-> c.key \o sfx[k], w |-> c.w]],
+        IN FoldLeft(LAMBDA acc, c : acc \o [k \in DOMAIN sfx |-> [sample |-> ColumnOf(r, o), key |-> c.key \o sfx[k], w |-> c.w]],
                     <<>>, base)
     ELSE IF o.usebed THEN
         LET rows == SetToSeq(RowsOf(r, o))
             KeyFor(c) == IF o.byvalue # "" THEN << o.byvalue >> ELSE c.key
         IN FoldLeft(LAMBDA acc, c : acc \o [k \in DOMAIN rows |->
-                        [sample |-> r.sample, key |-> KeyFor(c) \o RowSuffix(o.bed[rows[k]]), w |-> c.w]],
+                        [sample |-> ColumnOf(r, o), key |-> KeyFor(c) \o RowSuffix(o.bed[rows[k]]), w |-> c.w]],
                     <<>>, base)
-    ELSE [k \in DOMAIN base |-> [sample |-> r.sample, key |-> base[k].key, w |-> base[k].w]]
+    ELSE [k \in DOMAIN base |-> [sample |-> ColumnOf(r, o), key |-> base[k].key, w |-> base[k].w]]
 
 Cell(c) == << c.sample, c.key >>
 (* all contributions of the reads of a BAM that pass `pred`, flattened *)
@@ -327,7 +332,7 @@ ApplyR(r, d) ==
 
 BaseOpts == [r1only |-> FALSE, r2only |-> FALSE, filterMP |-> FALSE, proper |-> FALSE, no_indels |-> FALSE,
              no_softclips |-> FALSE, filterXA |-> FALSE, dedup |-> FALSE, nodivide |-> FALSE, divmm |-> FALSE,
-             split |-> FALSE, keep |-> FALSE, minMQ |-> 0, max_edits |-> -1, blacklist |-> <<>>, byvalue |-> "",
+             split |-> FALSE, keep |-> FALSE, bulk |-> FALSE, minMQ |-> 0, max_edits |-> -1, blacklist |-> <<>>, byvalue |-> "",
              mode |-> "joined", tags |-> <<"GN">>, bin |-> 0, bintag |-> "DS", sliding |-> 0, bed |-> <<>>, usebed |-> FALSE,
              contig |-> "", delim |-> ",", reflen |-> [c1 |-> 40, c2 |-> 30]]
 
